@@ -88,7 +88,9 @@ SizeClass(s, nv, keys, p) ==
     [] s = "pst13" -> IF DegOf(p) > keys.sup THEN "refuse" ELSE "ok"
     [] s = "ligero_uni" -> IF p.cls = "zero" /\ LigeroZeroPolyPanics THEN "panics" ELSE "ok"
     [] s = "hyrax" -> IF p.cls = "nv" /\ p.deg # nv THEN "refuse" ELSE "ok"
-    [] s = "brakedown" -> IF p.cls = "nv" /\ p.deg # nv THEN "any" ELSE "ok"
+    \* Brakedown's parameters are generated for one matrix shape (code fact BrakedownGuardsSize: before D15
+    \* a longer coefficient vector was cut down to that shape and committed)
+    [] s = "brakedown" -> IF p.cls = "nv" /\ p.deg # nv THEN (IF BrakedownGuardsSize THEN "refuse" ELSE "any") ELSE "ok"
     \* multilinear Ligero has no number of variables in its keys; the harness only has points of
     \* the session's size, so other sizes are left unconstrained here
     [] s = "ligero_ml" -> IF p.cls = "nv" /\ p.deg # nv THEN "any" ELSE "ok"
